@@ -370,6 +370,8 @@ for _id, _sc in _SCOPES.items():
     PROPERTIES[_id]["rules"].append((G.G15_order_and_bucket_pitfalls, "%s mask order is not paired with dict order; tolerances are not implemented by rounded keys" % _id, {"scope": _sc}))
     PROPERTIES[_id]["rules"].append((G.G16_parallel_order, "%s parallel per-item arrays are updated, replicated and paired in one order" % _id, {"scope": _sc}))
     PROPERTIES[_id]["rules"].append((G.G17_orientation_assumptions, "%s no sign test on the cell determinant; neighbour offsets are not addressed by position" % _id, {"scope": _sc}))
+    PROPERTIES[_id]["rules"].append((G.G18_loop_variable_leak, "%s no read of a loop variable after a loop without break" % _id, {"scope": _sc}))
+    PROPERTIES[_id]["rules"].append((G.G19_bucket_key_present, "%s occurrence tables are subscripted only with keys that occur (or through .get / a membership test)" % _id, {"scope": _sc}))
     PROPERTIES[_id]["rules"].append((G.G12_set_order, "%s a sequence made from a set is not used as an ordered selector" % _id, {"scope": _sc}))
     PROPERTIES[_id]["rules"].append((G.G10_defined_before_use, "%s every read of a local is reached by an assignment (no statement moved above the one that defines its input)" % _id, {"scope": _sc}))
     PROPERTIES[_id]["rules"].append((G.G7_api_contract_pitfalls, "%s API contracts: insertion points as indices, span versus length, memoised functions / caching properties, stored tables tested by truth value" % _id, {"scope": _sc}))
